@@ -1,6 +1,7 @@
 package props
 
 import (
+	"encoding/base64"
 	"encoding/json"
 	"fmt"
 	"os"
@@ -113,6 +114,15 @@ func (C06) Assumptions() []string {
 type snapEnt struct {
 	Mode string `json:"mode"`
 	Text string `json:"text"`
+	B64  string `json:"b64,omitempty"`
+}
+
+// legacyMarker stands, in the JSON form of a scenario, for bytes that are not valid UTF-8
+// (a Latin-1 / GBK character in a comment): JSON cannot carry them, the materialised file does.
+const legacyMarker = "\u00a7LEGACY\u00a7"
+
+func materialiseLegacy(text string) string {
+	return strings.ReplaceAll(text, legacyMarker, "\xe9\xb2\xe2")
 }
 
 func (C06) Run(ctx *sim.RunCtx, data json.RawMessage) (*sim.Outcome, error) {
@@ -137,11 +147,15 @@ func (C06) Run(ctx *sim.RunCtx, data json.RawMessage) (*sim.Outcome, error) {
 			if len(f.Text)%5 == 0 {
 				mode = 0600 // the file mode must survive the rewrite
 			}
-			if err := os.WriteFile(p, []byte(f.Text), mode); err != nil {
+			text := materialiseLegacy(f.Text)
+			if text != f.Text {
+				out.Probes["file-in-legacy-encoding"]++
+			}
+			if err := os.WriteFile(p, []byte(text), mode); err != nil {
 				return nil, sim.Harness("%v", err)
 			}
 			os.Chmod(p, mode)
-			state[d][f.Path] = snapEnt{Mode: mode.String(), Text: f.Text}
+			state[d][f.Path] = snapEnt{Mode: mode.String(), Text: text}
 		}
 		if d < len(sc.Noise) && sc.Noise[d] {
 			for name, text := range map[string]string{".gitignore": "*.iml\n*.log\n", "00_aaa.iml": "<module/>\n", "a/00_first.log": "log\n", "zz_last.log": "log\n"} {
@@ -248,6 +262,16 @@ func (C06) Run(ctx *sim.RunCtx, data json.RawMessage) (*sim.Outcome, error) {
 				var snap map[string]snapEnt
 				if err := json.Unmarshal(rec.Result, &snap); err != nil {
 					return nil, sim.Harness("snapshot: %v", err)
+				}
+				for k, e := range snap {
+					if e.B64 != "" {
+						raw, err := base64.StdEncoding.DecodeString(e.B64)
+						if err != nil {
+							return nil, sim.Harness("snapshot: %v", err)
+						}
+						e.Text, e.B64 = string(raw), ""
+						snap[k] = e
+					}
 				}
 				d := m.dir
 				if d == lastUnused && cleaned[d] == 0 {
